@@ -4,7 +4,7 @@
 LOG=${1:-/tmp/verif_baseline.log}
 mkdir -p /tmp/mut
 XML=$(mktemp /tmp/verif_junit_XXXXXX.xml)
-cd /repo && flock /tmp/mut/test.lock env -u PYSYNCOBJ_VERIF /venv/bin/python -m pytest -ra -q -p no:cacheprovider --timeout=900 --continue-on-collection-errors --junitxml=$XML > $LOG 2>&1
+cd ${BASELINE_REPO:-/repo} && flock /tmp/mut/test.lock env -u PYSYNCOBJ_VERIF /venv/bin/python -m pytest -ra -q -p no:cacheprovider --timeout=900 --continue-on-collection-errors --junitxml=$XML > $LOG 2>&1
 /venv/bin/python - "$XML" <<'PY'
 import sys, json, xml.etree.ElementTree as ET
 base = json.load(open('/root/.vp/BASELINE.json'))
